@@ -9,6 +9,7 @@ mod c08;
 mod c09;
 mod c11;
 mod c13;
+mod c14;
 mod c18;
 mod c19;
 mod dump;
@@ -42,6 +43,7 @@ fn main() {
         "fsops" => cases.iter().map(fsops::run).collect(),
         "c11" => cases.iter().map(c11::run).collect(),
         "c13" => cases.iter().map(c13::run).collect(),
+        "c14" => cases.iter().map(c14::run).collect(),
         "c18" => cases.iter().map(c18::run).collect(),
         other => {
             eprintln!("unknown stream {other}");
